@@ -402,7 +402,17 @@ func TestC09Directed(t *testing.T) {
 		}
 	}
 	rapid.Check(t, func(t *rapid.T) {
-		items := genProgression(o, "C").Draw(t, "context")
+		oo := o
+		if coin(t, "long-context", 15) {
+			oo.MaxItems = 80 // the nonsense sits somewhere in a long piece
+		}
+		items := genProgression(oo, "C").Draw(t, "context")
+		if len(items) < 40 && coin(t, "pad-context", 10) {
+			n0 := len(items)
+			for len(items) < 45 {
+				items = append(items, items[len(items)%n0])
+			}
+		}
 		at := rapid.IntRange(0, len(items)-1).Draw(t, "at")
 		x := rapid.SampledFrom(all).Draw(t, "class")
 		c := C09Directed{Class: x.class, Channel: x.channel, Items: items, At: at}
